@@ -514,6 +514,19 @@ func initializeAliasToIndexMap() error {
 	}
 
 	for _, dir := range dirs {
+		if !dir.IsDir() && strings.HasSuffix(dir.Name(), ".json") {
+			// alias files of the default org (0) are stored directly in the aliases directory
+			indexName := strings.TrimSuffix(dir.Name(), ".json")
+			aliasNames, err := GetAliases(indexName, 0)
+			if err != nil {
+				log.Errorf("initializeAliasToIndexMap: For indexName=%v, Failed to getAllAliasInIndexFile fname=%v, err=%v", indexName, dir.Name(), err)
+				return err
+			}
+			for aliasName := range aliasNames {
+				putAliasToIndexInMem(aliasName, indexName, 0)
+			}
+			continue
+		}
 		if dir.IsDir() {
 			orgid := dir.Name()
 			orgIdNumber, _ := strconv.ParseInt(orgid, 10, 64)
